@@ -575,10 +575,10 @@ func (stmt *Statement) clone() *Statement {
 //	stmt.SetColumn("Name", "jinzhu", true) // Callbacks Method
 func (stmt *Statement) SetColumn(name string, value interface{}, fromCallbacks ...bool) {
 	if v, ok := stmt.Dest.(map[string]interface{}); ok {
-		v[name] = value
+		stmt.setMapColumn(v, name, value)
 	} else if v, ok := stmt.Dest.([]map[string]interface{}); ok {
 		for _, m := range v {
-			m[name] = value
+			stmt.setMapColumn(m, name, value)
 		}
 	} else if stmt.Schema != nil {
 		if field := stmt.Schema.LookUpField(name); field != nil {
@@ -626,6 +626,18 @@ func (stmt *Statement) SetColumn(name string, value interface{}, fromCallbacks .
 	} else {
 		stmt.AddError(ErrInvalidField)
 	}
+}
+
+// setMapColumn stores value under name, dropping any other spelling (field name / column name) of
+// the same field so that the map carries one value per column
+func (stmt *Statement) setMapColumn(m map[string]interface{}, name string, value interface{}) {
+	if stmt.Schema != nil {
+		if field := stmt.Schema.LookUpField(name); field != nil {
+			delete(m, field.Name)
+			delete(m, field.DBName)
+		}
+	}
+	m[name] = value
 }
 
 // Changed check model changed or not when updating
